@@ -3,7 +3,7 @@
    executable model of Model.v (instantiated on an arbitrary real closed field F: exact arithmetic).
    All statements quantify over ALL sampler expressions (any nesting), batch shapes, sizes and sample counts. *)
 From mathcomp Require Import all_ssreflect all_algebra.
-Require Import C18.Model C18.ProofsIdx C18.ProofsLinear C18.ProofsGram C18.ProofsMx.
+Require Import C18.Model C18.ProofsIdx C18.ProofsLinear C18.ProofsGram C18.ProofsMx C18.ProofsCoord.
 Set Implicit Arguments.
 Unset Strict Implicit.
 Import GRing.Theory Num.Theory.
@@ -34,6 +34,29 @@ Theorem C18_sample_linear_mx : forall (F : rcfType) (st : sett) k (e : sx F) zs 
   wf (RA F) st e -> noise_ok (RA F) st k e zs -> alg_sample (RA F) st k e zs = Some s -> (b < BB e)%N ->
   size s = (k * BB e * NN e)%N /\ mx_draws k e s b = mx_root st e b *m mx_noise st k e zs b.
 Proof. move=> F st k e zs s b; exact: sample_linear_mx. Qed.
+
+(* The noise coordinates are distinct, in-range entries of the randn tensors: `coord` reads the tensor of call
+   (coord_idx ..).1 at offset (coord_idx ..).2, the address map is injective on (batch member, coordinate, draw) and
+   never leaves the tensors.  Hence, for i.i.d. standard-normal randn entries, each draw of each batch member is R_b
+   applied to its own fresh standard-normal vector: draws are independent across t and across batch members, and no
+   two summands of a PsdSum / blocks of a block operator share noise. *)
+Theorem C18_noise_coordinates_read : forall (F : rcfType) (st : sett) k (e : sx F) zs b a t,
+  (a < nd (RA F) st e)%N ->
+  coord (RA F) st k e zs b a t =
+  rd (RA F) (nth [::] zs (coord_idx (RA F) st k e b a t).1) (coord_idx (RA F) st k e b a t).2.
+Proof. move=> F st k e zs b a t; exact: coordE. Qed.
+
+Theorem C18_noise_coordinates_distinct : forall (F : rcfType) (st : sett) k (e : sx F),
+  wf (RA F) st e ->
+  forall b a t b' a' t', in_range st k e b a t -> in_range st k e b' a' t' ->
+  coord_idx (RA F) st k e b a t = coord_idx (RA F) st k e b' a' t' -> [/\ b = b', a = a' & t = t'].
+Proof. move=> F st k e; exact: coord_idx_inj. Qed.
+
+Theorem C18_noise_coordinates_in_range : forall (F : rcfType) (st : sett) k (e : sx F) zs,
+  wf (RA F) st e -> noise_ok (RA F) st k e zs ->
+  forall b a t, in_range st k e b a t ->
+  ((coord_idx (RA F) st k e b a t).2 < size (nth [::] zs (coord_idx (RA F) st k e b a t).1))%N.
+Proof. move=> F st k e zs; exact: coord_idx_in_range. Qed.
 
 (* R R^T = A for every sampler, given valid roots at the generic leaves (C06), non-negative diagonals, and
    W_r = W_l at every interpolated node. *)
